@@ -354,7 +354,7 @@ def bounded_lex(ctx, T):
     texts = ["order_id", "index", "not_active", "android", "x >= 1", "x <= 1", "not  in", "else  if", "elseif", "/* a */ b /* c */", "/* a\n*/*/", "'a' //x\n'b'", "1and", "1.5.3", ".5", "a=<1",
              "\"a//b\"", "'/*'", "/* ' */ 'x'", "x/**/y", "/***/", "/*/", "in\u00e9",
              '"a\\"', "'\\'", '"C:\\exp\\" x', '"\\" "b"', "\"A' weighted 1, 'B\"", "'\"y\"'", "// c\x0c x", "// c\u2028 x", "//", "x //", "x // c", '"\U0001F680"', "not_in", "in_stock", "or_",
-             "/**/ x", "/*****/ x", "/* * */", "/* a */ // b\n c"]
+             "/**/ x", "/*****/ x", "/* * */", "/* a */ // b\n c", "/*/ a */ b", "/*// a */ b", "/*/*/ b", "'/*' x '*/'", "\"/*\" \"*/\"", "not\tin", "not \n in"]
 
     def run():
         r = native.one({"cmd": "lex_diff", "pool": core, "maxlen": 3 if ctx.tier == "quick" else 4, "texts": texts}, timeout=3000)
